@@ -160,6 +160,13 @@ def long_expression_cases():
             out.append({"mode": "product", "dask": dask, "params": [dict(long_p), dict(other)]})
             out.append({"mode": "product", "dask": dask, "params": [dict(other), dict(long_p)]})
         out.append({"mode": "sequential", "dask": False, "params": [dict(long_p), dict(other)]})
+    # expressions denoting very small magnitudes (capture cross-sections, ...): the values are what the expression denotes, digit for digit
+    tiny = {"key": KEYS[2], "values": [1e-16, 1e-15, 1e-14, 1e-13], "expr": "numpy.logspace(-16, -13, 4)", "enabled": True, "render": "expr"}
+    tiny2 = {"key": KEYS[2], "values": [1e-10, 1.5e-10, 2e-10], "expr": "numpy.linspace(1e-10, 2e-10, 3)", "enabled": True, "render": "expr"}
+    lvl = {"key": KEYS[0], "values": [3, 1], "enabled": True, "render": "list"}
+    for t in (tiny, tiny2):
+        for mode, dask in (("product", False), ("product", True), ("sequential", False)):
+            out.append({"mode": mode, "dask": dask, "params": [dict(t), dict(lvl)]})
     return out
 
 
